@@ -15,6 +15,8 @@ import (
 	"math/rand"
 	"net"
 	"os"
+	"path/filepath"
+	"sort"
 	"strings"
 	"testing"
 	"time"
@@ -149,7 +151,27 @@ func TestVerifC01CacheChain(t *testing.T) {
 	logger.SetWriter(zlog.NewTerminalWriter(io.Discard))
 	logger.SetLevel(zlog.LevelFatal)
 	zlog.SetDefault(logger)
-	for i := 0; i < n; i++ {
+	type chainCase struct {
+		Hops                     []bool
+		Signed, Do, Cd, Ad, Wire bool
+	}
+	var corpus []chainCase
+	if dir := os.Getenv("VERIF_CORPUS"); dir != "" {
+		files, _ := filepath.Glob(filepath.Join(dir, "chain-*.json"))
+		sort.Strings(files)
+		for _, fn := range files {
+			raw, err := os.ReadFile(fn)
+			var c chainCase
+			if err == nil && json.Unmarshal(raw, &c) == nil && len(c.Hops) >= 2 {
+				corpus = append(corpus, c)
+			}
+		}
+	}
+	for i := -len(corpus); i < n; i++ {
+		var forced *chainCase
+		if i < 0 {
+			forced = &corpus[i+len(corpus)]
+		}
 		cfg := new(config.Config)
 		cfg.CacheSize = 1024
 		cfg.Expire = 600
@@ -162,9 +184,15 @@ func TestVerifC01CacheChain(t *testing.T) {
 		var hops []bool
 		var hopsCoq []string
 		do, cd, ad, wire := r.Intn(2) == 0, r.Intn(5) == 0, r.Intn(3) == 0, r.Intn(2) == 0
+		if forced != nil {
+			hopsN, signed, do, cd, ad, wire = len(forced.Hops)-1, forced.Signed, forced.Do, forced.Cd, forced.Ad, forced.Wire
+		}
 		for h := 0; h <= hopsN; h++ {
 			name := fmt.Sprintf("h%d.chain%d.c01.test.", h, i)
 			v := r.Intn(3) != 0
+			if forced != nil {
+				v = forced.Hops[h]
+			}
 			hops = append(hops, v)
 			hopsCoq = append(hopsCoq, b(v))
 			q := new(dns.Msg)
